@@ -38,7 +38,14 @@ func (v *valsetRunner) Do(line string) {
 		v.t.obs("diff", "upd", v.pool.fmtUpdates(upd))
 	case "accum":
 		out := ccv.AccumulateChanges(v.pool.mkUpdates(op.pairs("cur")), v.pool.mkUpdates(op.pairs("new")))
-		v.t.obs("accum", "out", v.pool.fmtUpdates(out))
+		// replicas (C18): the same call again and again must give the same ORDERED result
+		det := 1
+		for i := 0; i < 12; i++ {
+			if again := ccv.AccumulateChanges(v.pool.mkUpdates(op.pairs("cur")), v.pool.mkUpdates(op.pairs("new"))); v.pool.fmtUpdates(again) != v.pool.fmtUpdates(out) {
+				det = 0
+			}
+		}
+		v.t.obs("accum", "out", v.pool.fmtUpdates(out), "det", det)
 	case "cinit":
 		v.cw = NewCWorld("consumer-1")
 		ret := v.cw.initGenesisNew(v.pool.mkUpdates(op.pairs("initial")), nil)
